@@ -338,7 +338,10 @@ func runConcrete(ld *Loaded, k *Kernel, tier string, vector []uint64, params map
 	if err != nil {
 		return pathEnd{}, nil, nil, err
 	}
-	defer in.solver.Close()
+	defer func() {
+		in.concreteMode = false
+		releaseInterp(in)
+	}()
 	in.concreteMode = true
 	in.vector = vector
 	end := in.runPath(entry)
@@ -452,9 +455,13 @@ func main() {
 	}
 	switch os.Args[1] {
 	case "check":
-		os.Exit(cmdCheck(os.Args[2:]))
+		code := cmdCheck(os.Args[2:])
+		closeInterpPool()
+		os.Exit(code)
 	case "replay":
-		os.Exit(cmdReplay(os.Args[2:]))
+		code := cmdReplay(os.Args[2:])
+		closeInterpPool()
+		os.Exit(code)
 	default:
 		fmt.Fprintln(os.Stderr, "unknown command")
 		os.Exit(2)
